@@ -215,6 +215,10 @@ func runC14(e *env) {
 	// the only integer of the file is a query parameter: its TypeScript type must still be declared
 	specs = append(specs, &modSpec{Name: "axios-int-query-only", ModPath: "example.com/org/api", Target: "routes.go",
 		Files: []modFile{{"routes.go", "package main\n\nimport \"example.com/org/api/echo\"\n\ntype controller struct{}\n\nfunc (controller) QueryParamInt64(echo.Context, string) int64 { return 0 }\nfunc (controller) QueryParamBool(echo.Context, string) bool   { return false }\n\nfunc (ct controller) page(c echo.Context) error {\n\tp := ct.QueryParamInt64(c, \"page\")\n\t_ = p\n\tvar out string\n\treturn c.JSON(200, out)\n}\n\nfunc (ct controller) flag(c echo.Context) error {\n\tb := ct.QueryParamBool(c, \"on\")\n\t_ = b\n\tvar out []string\n\treturn c.JSON(200, out)\n}\n\nfunc routes(e *echo.Echo, ct controller) {\n\te.GET(\"/page\", ct.page)\n\te.GET(\"/flag\", ct.flag)\n}\n"}, {"echo/echo.go", echoStub}}})
+	// the key type of a map is mentioned by the signatures too: its declaration must be in the file even when nothing
+	// else mentions it
+	specs = append(specs, &modSpec{Name: "axios-map-key-types", ModPath: "example.com/org/api", Target: "routes.go",
+		Files: []modFile{{"routes.go", "package main\n\nimport \"example.com/org/api/echo\"\n\ntype Key int64\n\ntype Color string\n\nconst (\n\tRed Color = \"red\"\n\tBlue Color = \"blue\"\n)\n\ntype Dossier struct{ Title string }\n\ntype controller struct{}\n\nfunc (ct controller) byKey(c echo.Context) error {\n\tvar out map[Key]Dossier\n\treturn c.JSON(200, out)\n}\n\nfunc (ct controller) byInt(c echo.Context) error {\n\tvar in map[int]string\n\tif err := c.Bind(&in); err != nil {\n\t\treturn err\n\t}\n\tvar out map[Color]bool\n\treturn c.JSON(200, out)\n}\n\nfunc routes(e *echo.Echo, ct controller) {\n\te.GET(\"/by_key\", ct.byKey)\n\te.POST(\"/by_int\", ct.byInt)\n}\n"}, {"echo/echo.go", echoStub}}})
 	if m := repoFixture("repo-httpapi-routes", "analysis/httpapi/test/routes.go"); m != nil {
 		m.Class = "axios-data-argument-with-get-or-delete" // its handle1 is a GET binding a body
 		specs = append(specs, m)
